@@ -14,6 +14,7 @@ import (
 func ChopFile(ctx context.Context, name string, chunks []IndexChunk, ws WriteStore, n int, pb ProgressBar) error {
 	in := make(chan IndexChunk)
 	g, ctx := errgroup.WithContext(ctx)
+	verifPoolCtx("ChopFile", ctx)
 
 	// Setup and start the progressbar if any
 	pb.SetTotal(len(chunks))
@@ -31,20 +32,26 @@ func ChopFile(ctx context.Context, name string, chunks []IndexChunk, ws WriteSto
 		defer f.Close()
 
 		g.Go(func() error {
+			verifPool("ChopFile", "start", i, -1)
 			for c := range in {
+				verifPool("ChopFile", "recv", i, -1)
 				verifYield("ChopFile.work")
 				// Update progress bar if any
 				pb.Increment()
 
 				chunk, err := readChunkFromFile(f, c)
 				if err != nil {
+					verifPool("ChopFile", "fail", i, -1)
 					return err
 				}
 
 				if err := s.StoreChunk(chunk); err != nil {
+					verifPool("ChopFile", "fail", i, -1)
 					return err
 				}
+				verifPool("ChopFile", "ok", i, -1)
 			}
+			verifPool("ChopFile", "exit", i, -1)
 			return nil
 		})
 	}
@@ -54,15 +61,20 @@ func ChopFile(ctx context.Context, name string, chunks []IndexChunk, ws WriteSto
 loop:
 	for _, c := range chunks {
 		verifYield("ChopFile.feed")
+		verifPool("ChopFile", "select", -1, -1)
 		select {
 		case <-ctx.Done():
+			verifPool("ChopFile", "break", -1, -1)
 			interrupted = true
 			break loop
 		case in <- c:
+			verifPool("ChopFile", "sent", -1, -1)
 		}
 	}
 
+	verifPool("ChopFile", "close", -1, -1)
 	close(in)
+	verifPool("ChopFile", "wait", -1, -1)
 
 	return waitOrInterrupted(g, interrupted)
 }
